@@ -57,7 +57,7 @@ PLAN = {
         "exhaustive_note": "every (op, lhs kind, rhs kind) the API defines (107 + 7 negations) x a thin operand family per kind (incl. quadratics listing a pair in both triangles, decision variables of every kind)",
     },
     "C03": {
-        "mc": [MC_POLY, MC_INST], "lift_every": 17, "negzero_every": 5,
+        "mc": [MC_POLY, MC_INST], "lift_every": 17, "negzero_every": 5, "lift_inst_every": 5,
         "gen": [G("partial", "Gen_Fn_Partial.cfg"), GSM_S],
         "drive": [D("partial_fn", 3000, 200000), D("commute", 800, 40000), D("mixed", 300, 15000)],
     },
@@ -72,7 +72,7 @@ PLAN = {
         "exhaustive_note": "tolerance grid (67u/68u around 1e-6, 6u/7u around 1e-7, u = 2^-26) and the exact floats +-1e-6/+-1e-7; every kind x bound shape of an irrelevant variable; explicit binary bounds; chained dependents in both map orders",
     },
     "C06": {
-        "mc": [MC_INST], "gen": [GI("samples", "Samples")], "drive": [D("samples", 1000, 50000)],
+        "mc": [MC_INST], "gen": [GI("samples", "Samples")], "drive": [D("samples", 1000, 50000)], "lift_inst_every": 5,
         "exhaustive_note": "all assignments of 3 states (one omitting an irrelevant variable) to <= 3 sample ids, grouped or in separate entries, with and without a fixed variable; samples exactly at the tolerance",
     },
     "C07": {
